@@ -197,6 +197,7 @@ package proto
 //@   requires b != nil
 //@   modifies b.Buf
 //@   ensures appendOnly(b, uvsize(x)) && forall j in 0..uvsize(x) :: b.Buf[old(len(b.Buf)) + j] == uvbyte(x, j)
+//@   ensures uvAt(arrayof(b.Buf), offset(b.Buf) + old(len(b.Buf)), x) {varint-image}
 //@ contract (b *Buffer) PutRaw(v) props(C01,C17)
 //@   requires b != nil
 //@   modifies b.Buf
@@ -238,73 +239,86 @@ package proto
 //@   modifies r.pos, r.failed, contents(buf)
 //@   ensures rdOK(r, err, len(buf))
 //@   ensures err == nil ==> forall k in 0..len(buf) :: buf[k] == r.in[old(r.pos) + k]
+//@   ensures r.reliable && !old(r.failed) && old(r.pos) + len(buf) <= r.end ==> err == nil {succeeds-when-bytes-present}
 
 //@ contract (r *Reader) readFull(n) (err) props(C01,C06,C07,C08,C17)
 //@   requires r != nil && 0 <= n
 //@   modifies r.pos, r.failed, r.b.Buf
 //@   ensures rdOK(r, err, n)
 //@   ensures err == nil ==> len(r.b.Buf) == n && forall k in 0..n :: r.b.Buf[k] == r.in[old(r.pos) + k]
+//@   ensures r.reliable && !old(r.failed) && old(r.pos) + n <= r.end ==> err == nil {succeeds-when-bytes-present}
 
 //@ contract (r *Reader) ReadRaw(n) (out, err) props(C01,C06,C07,C08)
 //@   requires r != nil && 0 <= n
 //@   modifies r.pos, r.failed, r.b.Buf
 //@   ensures rdOK(r, err, n)
 //@   ensures err == nil ==> len(out) == n && forall k in 0..n :: out[k] == r.in[old(r.pos) + k]
+//@   ensures r.reliable && !old(r.failed) && old(r.pos) + n <= r.end ==> err == nil {succeeds-when-bytes-present}
 
 //@ contract (r *Reader) ReadByte() (v, err) props(C07,C08)
 //@   requires r != nil
 //@   modifies r.pos, r.failed, r.b.Buf
 //@   ensures rdOK(r, err, 1)
 //@   ensures err == nil ==> v == r.in[old(r.pos)]
+//@   ensures r.reliable && !old(r.failed) && old(r.pos) + 1 <= r.end ==> err == nil {succeeds-when-bytes-present}
 
 //@ contract (r *Reader) UInt8() (v, err) props(C01,C06,C07,C08,C17)
 //@   requires r != nil
 //@   modifies r.pos, r.failed, r.b.Buf
 //@   ensures rdOK(r, err, 1)
 //@   ensures err == nil ==> v == r.in[old(r.pos)]
+//@   ensures r.reliable && !old(r.failed) && old(r.pos) + 1 <= r.end ==> err == nil {succeeds-when-bytes-present}
 //@ contract (r *Reader) Byte() (v, err) props(C01,C06,C07,C08,C17)
 //@   requires r != nil
 //@   modifies r.pos, r.failed, r.b.Buf
 //@   ensures rdOK(r, err, 1)
 //@   ensures err == nil ==> v == r.in[old(r.pos)]
+//@   ensures r.reliable && !old(r.failed) && old(r.pos) + 1 <= r.end ==> err == nil {succeeds-when-bytes-present}
 //@ contract (r *Reader) UInt16() (v, err) props(C01,C06,C07,C08,C17)
 //@   requires r != nil
 //@   modifies r.pos, r.failed, r.b.Buf
 //@   ensures rdOK(r, err, 2)
 //@   ensures err == nil ==> v == unle16(r.in[old(r.pos)], r.in[old(r.pos) + 1])
+//@   ensures r.reliable && !old(r.failed) && old(r.pos) + 2 <= r.end ==> err == nil {succeeds-when-bytes-present}
 //@ contract (r *Reader) UInt32() (v, err) props(C01,C06,C07,C08,C17)
 //@   requires r != nil
 //@   modifies r.pos, r.failed, r.b.Buf
 //@   ensures rdOK(r, err, 4)
 //@   ensures err == nil ==> v == unle32(r.in[old(r.pos)], r.in[old(r.pos) + 1], r.in[old(r.pos) + 2], r.in[old(r.pos) + 3])
+//@   ensures r.reliable && !old(r.failed) && old(r.pos) + 4 <= r.end ==> err == nil {succeeds-when-bytes-present}
 //@ contract (r *Reader) UInt64() (v, err) props(C01,C06,C07,C08,C17)
 //@   requires r != nil
 //@   modifies r.pos, r.failed, r.b.Buf
 //@   ensures rdOK(r, err, 8)
 //@   ensures err == nil ==> v == unle64(r.in[old(r.pos)], r.in[old(r.pos) + 1], r.in[old(r.pos) + 2], r.in[old(r.pos) + 3], r.in[old(r.pos) + 4], r.in[old(r.pos) + 5], r.in[old(r.pos) + 6], r.in[old(r.pos) + 7])
+//@   ensures r.reliable && !old(r.failed) && old(r.pos) + 8 <= r.end ==> err == nil {succeeds-when-bytes-present}
 //@ contract (r *Reader) Bool() (v, err) props(C01,C06,C07,C08,C17)
 //@   requires r != nil
 //@   modifies r.pos, r.failed, r.b.Buf
 //@   ensures (err == nil ==> r.pos == old(r.pos) + 1 && r.failed == old(r.failed)) && (r.failed && !old(r.failed) ==> err != nil) && old(r.pos) <= r.pos && r.pos <= r.end
 //@   ensures old(r.pos) + 1 > r.end ==> err != nil
 //@   ensures err == nil ==> (r.in[old(r.pos)] == 1 && v) || (r.in[old(r.pos)] == 0 && !v)
+//@   ensures r.reliable && !old(r.failed) && old(r.pos) + 1 <= r.end && r.in[old(r.pos)] <= 1 ==> err == nil {succeeds-on-0-or-1}
 
 //@ contract (r *Reader) UVarInt() (x, err) props(C01,C06,C07,C08,C17)
 //@   requires r != nil
 //@   modifies r.pos, r.failed
 //@   ensures rdOK(r, err, uvlen(r.in, old(r.pos)))
 //@   ensures err == nil ==> x == uvval(r.in, old(r.pos))
+//@   ensures r.reliable && !old(r.failed) && uvok(r.in, old(r.pos)) && old(r.pos) + uvlen(r.in, old(r.pos)) <= r.end ==> err == nil {succeeds-on-well-formed}
 //@ contract (r *Reader) Int() (x, err) props(C01,C06,C07,C08,C17)
 //@   requires r != nil
 //@   modifies r.pos, r.failed
 //@   ensures rdOK(r, err, uvlen(r.in, old(r.pos)))
 //@   ensures err == nil ==> x == i64(uvval(r.in, old(r.pos)))
+//@   ensures r.reliable && !old(r.failed) && uvok(r.in, old(r.pos)) && old(r.pos) + uvlen(r.in, old(r.pos)) <= r.end ==> err == nil {succeeds-on-well-formed}
 //@ contract (r *Reader) StrLen() (n, err) props(C01,C06,C07,C08,C17)
 //@   requires r != nil
 //@   modifies r.pos, r.failed
 //@   ensures (err == nil ==> r.pos == old(r.pos) + uvlen(r.in, old(r.pos)) && r.failed == old(r.failed)) && (r.failed && !old(r.failed) ==> err != nil) && old(r.pos) <= r.pos && r.pos <= r.end
 //@   ensures old(r.pos) + uvlen(r.in, old(r.pos)) > r.end ==> err != nil
 //@   ensures err == nil ==> n == i64(uvval(r.in, old(r.pos))) && 0 <= n
+//@   ensures r.reliable && !old(r.failed) && uvok(r.in, old(r.pos)) && old(r.pos) + uvlen(r.in, old(r.pos)) <= r.end && 0 <= i64(uvval(r.in, old(r.pos))) ==> err == nil {succeeds-on-well-formed}
 
 //@ -- strOK: a length-prefixed string was consumed: varint length n, then n bytes
 //@ spec func strN(r Val) Int = i64(uvval(r.in, old(r.pos)))
@@ -316,22 +330,26 @@ package proto
 //@   modifies r.pos, r.failed, r.b.Buf
 //@   ensures strOK(r, err)
 //@   ensures err == nil ==> len(out) == strN(r) && forall k in 0..len(out) :: out[k] == r.in[strAt(r) + k]
+//@   ensures r.reliable && !old(r.failed) && uvok(r.in, old(r.pos)) && old(r.pos) + uvlen(r.in, old(r.pos)) <= r.end && 0 <= strN(r) && strAt(r) + strN(r) <= r.end ==> err == nil {succeeds-on-well-formed}
 //@ contract (r *Reader) StrAppend(buf) (out, err) props(C01,C06,C07,C08,C17)
 //@   requires r != nil
 //@   modifies r.pos, r.failed, r.b.Buf
 //@   ensures strOK(r, err)
 //@   ensures err == nil ==> len(out) == len(buf) + strN(r) && forall k in 0..strN(r) :: out[len(buf) + k] == r.in[strAt(r) + k]
 //@   ensures err == nil ==> forall k in 0..len(buf) :: out[k] == old(buf[k])
+//@   ensures r.reliable && !old(r.failed) && uvok(r.in, old(r.pos)) && old(r.pos) + uvlen(r.in, old(r.pos)) <= r.end && 0 <= strN(r) && strAt(r) + strN(r) <= r.end ==> err == nil {succeeds-on-well-formed}
 //@ contract (r *Reader) StrBytes() (out, err) props(C01,C06,C07,C08,C17)
 //@   requires r != nil
 //@   modifies r.pos, r.failed, r.b.Buf
 //@   ensures strOK(r, err)
 //@   ensures err == nil ==> len(out) == strN(r) && forall k in 0..len(out) :: out[k] == r.in[strAt(r) + k]
+//@   ensures r.reliable && !old(r.failed) && uvok(r.in, old(r.pos)) && old(r.pos) + uvlen(r.in, old(r.pos)) <= r.end && 0 <= strN(r) && strAt(r) + strN(r) <= r.end ==> err == nil {succeeds-on-well-formed}
 //@ contract (r *Reader) Str() (s, err) props(C01,C06,C07,C08,C17)
 //@   requires r != nil
 //@   modifies r.pos, r.failed, r.b.Buf
 //@   ensures strOK(r, err)
 //@   ensures err == nil ==> len(s) == strN(r) && forall k in 0..len(s) :: s[k] == r.in[strAt(r) + k]
+//@   ensures r.reliable && !old(r.failed) && uvok(r.in, old(r.pos)) && old(r.pos) + uvlen(r.in, old(r.pos)) <= r.end && 0 <= strN(r) && strAt(r) + strN(r) <= r.end ==> err == nil {succeeds-on-well-formed}
 
 // ---------------------------------------------------------------------------
 // little-endian helpers for 128/256-bit values and IPv6 (pure readers have no frame)
@@ -414,24 +432,23 @@ package proto
 
 //@ -- appendsOnly(b): b.Buf grew (by some amount) and the old content is untouched
 //@ spec func appendsOnly(b Val) Bool = len(b.Buf) >= old(len(b.Buf)) && forall k in 0..old(len(b.Buf)) :: b.Buf[k] == old(b.Buf[k])
-//@ contract (c ClientHello) Encode(b) props(C13,C17)
-//@   requires b != nil
-//@   modifies b.Buf
-//@   ensures appendsOnly(b) {append-only}
 //@ contract (b *Buffer) PutString(s) props(C01,C17)
 //@   requires b != nil
 //@   modifies b.Buf
 //@   ensures appendOnly(b, uvsize(len(s)) + len(s)) {append-only}
 //@   ensures forall j in 0..uvsize(len(s)) :: b.Buf[old(len(b.Buf)) + j] == uvbyte(len(s), j) {length-prefix}
 //@   ensures forall j in 0..len(s) :: b.Buf[old(len(b.Buf)) + uvsize(len(s)) + j] == s[j] {bytes}
+//@   ensures uvAt(arrayof(b.Buf), offset(b.Buf) + old(len(b.Buf)), len(s)) {varint-image}
 //@ contract (b *Buffer) PutInt(x) props(C01,C17)
 //@   requires b != nil
 //@   modifies b.Buf
 //@   ensures appendOnly(b, uvsize(u64(x))) && forall j in 0..uvsize(u64(x)) :: b.Buf[old(len(b.Buf)) + j] == uvbyte(u64(x), j)
+//@   ensures uvAt(arrayof(b.Buf), offset(b.Buf) + old(len(b.Buf)), u64(x)) {varint-image}
 //@ contract (b *Buffer) PutLen(x) props(C01,C17)
 //@   requires b != nil
 //@   modifies b.Buf
 //@   ensures appendOnly(b, uvsize(u64(x))) && forall j in 0..uvsize(u64(x)) :: b.Buf[old(len(b.Buf)) + j] == uvbyte(u64(x), j)
+//@   ensures uvAt(arrayof(b.Buf), offset(b.Buf) + old(len(b.Buf)), u64(x)) {varint-image}
 
 // remaining Reader primitives (signed / wide / float views of the unsigned readers)
 
@@ -440,40 +457,60 @@ package proto
 //@   modifies r.pos, r.failed, r.b.Buf
 //@   ensures rdOK(r, err, 1)
 //@   ensures err == nil ==> v == i8(r.in[old(r.pos)])
+//@   ensures r.reliable && !old(r.failed) && old(r.pos) + 1 <= r.end ==> err == nil {succeeds-when-bytes-present}
 //@ contract (r *Reader) Int16() (v, err) props(C01,C06,C07,C08,C17)
 //@   requires r != nil
 //@   modifies r.pos, r.failed, r.b.Buf
 //@   ensures rdOK(r, err, 2)
 //@   ensures err == nil ==> v == i16(unle16(r.in[old(r.pos)], r.in[old(r.pos) + 1]))
+//@   ensures r.reliable && !old(r.failed) && old(r.pos) + 2 <= r.end ==> err == nil {succeeds-when-bytes-present}
 //@ contract (r *Reader) Int32() (v, err) props(C01,C06,C07,C08,C17)
 //@   requires r != nil
 //@   modifies r.pos, r.failed, r.b.Buf
 //@   ensures rdOK(r, err, 4)
 //@   ensures err == nil ==> v == i32(unle32(r.in[old(r.pos)], r.in[old(r.pos) + 1], r.in[old(r.pos) + 2], r.in[old(r.pos) + 3]))
+//@   ensures r.reliable && !old(r.failed) && old(r.pos) + 4 <= r.end ==> err == nil {succeeds-when-bytes-present}
 //@ contract (r *Reader) Int64() (v, err) props(C01,C06,C07,C08,C17)
 //@   requires r != nil
 //@   modifies r.pos, r.failed, r.b.Buf
 //@   ensures rdOK(r, err, 8)
 //@   ensures err == nil ==> v == i64(unle64(r.in[old(r.pos)], r.in[old(r.pos) + 1], r.in[old(r.pos) + 2], r.in[old(r.pos) + 3], r.in[old(r.pos) + 4], r.in[old(r.pos) + 5], r.in[old(r.pos) + 6], r.in[old(r.pos) + 7]))
+//@   ensures r.reliable && !old(r.failed) && old(r.pos) + 8 <= r.end ==> err == nil {succeeds-when-bytes-present}
 //@ contract (r *Reader) UInt128() (v, err) props(C01,C06,C07,C08,C17)
 //@   requires r != nil
 //@   modifies r.pos, r.failed, r.b.Buf
 //@   ensures rdOK(r, err, 16)
 //@   ensures err == nil ==> v.Low == unle64(r.in[old(r.pos)], r.in[old(r.pos) + 1], r.in[old(r.pos) + 2], r.in[old(r.pos) + 3], r.in[old(r.pos) + 4], r.in[old(r.pos) + 5], r.in[old(r.pos) + 6], r.in[old(r.pos) + 7])
 //@   ensures err == nil ==> v.High == unle64(r.in[old(r.pos) + 8], r.in[old(r.pos) + 9], r.in[old(r.pos) + 10], r.in[old(r.pos) + 11], r.in[old(r.pos) + 12], r.in[old(r.pos) + 13], r.in[old(r.pos) + 14], r.in[old(r.pos) + 15])
+//@   ensures r.reliable && !old(r.failed) && old(r.pos) + 16 <= r.end ==> err == nil {succeeds-when-bytes-present}
 //@ contract (r *Reader) Int128() (v, err) props(C01,C06,C07,C08,C17)
 //@   requires r != nil
 //@   modifies r.pos, r.failed, r.b.Buf
 //@   ensures rdOK(r, err, 16)
 //@   ensures err == nil ==> v.Low == unle64(r.in[old(r.pos)], r.in[old(r.pos) + 1], r.in[old(r.pos) + 2], r.in[old(r.pos) + 3], r.in[old(r.pos) + 4], r.in[old(r.pos) + 5], r.in[old(r.pos) + 6], r.in[old(r.pos) + 7])
 //@   ensures err == nil ==> v.High == unle64(r.in[old(r.pos) + 8], r.in[old(r.pos) + 9], r.in[old(r.pos) + 10], r.in[old(r.pos) + 11], r.in[old(r.pos) + 12], r.in[old(r.pos) + 13], r.in[old(r.pos) + 14], r.in[old(r.pos) + 15])
+//@   ensures r.reliable && !old(r.failed) && old(r.pos) + 16 <= r.end ==> err == nil {succeeds-when-bytes-present}
 //@ contract (r *Reader) Float32() (v, err) props(C01,C06,C07,C08,C17)
 //@   requires r != nil
 //@   modifies r.pos, r.failed, r.b.Buf
 //@   ensures rdOK(r, err, 4)
 //@   ensures err == nil ==> v == unle32(r.in[old(r.pos)], r.in[old(r.pos) + 1], r.in[old(r.pos) + 2], r.in[old(r.pos) + 3])
+//@   ensures r.reliable && !old(r.failed) && old(r.pos) + 4 <= r.end ==> err == nil {succeeds-when-bytes-present}
 //@ contract (r *Reader) Float64() (v, err) props(C01,C06,C07,C08,C17)
 //@   requires r != nil
 //@   modifies r.pos, r.failed, r.b.Buf
 //@   ensures rdOK(r, err, 8)
 //@   ensures err == nil ==> v == unle64(r.in[old(r.pos)], r.in[old(r.pos) + 1], r.in[old(r.pos) + 2], r.in[old(r.pos) + 3], r.in[old(r.pos) + 4], r.in[old(r.pos) + 5], r.in[old(r.pos) + 6], r.in[old(r.pos) + 7])
+//@   ensures r.reliable && !old(r.failed) && old(r.pos) + 8 <= r.end ==> err == nil {succeeds-when-bytes-present}
+
+// ---------------------------------------------------------------------------
+// readers over in-memory buffers (used by the round-trip lemmas)
+
+//@ import io io
+//@ contract NewReader(rd) (r) props(C17)
+//@   requires rd != nil
+//@   ensures r != nil && r.in == rd.in && r.pos == rd.pos && r.end == rd.end && r.failed == rd.failed && r.reliable == rd.reliable {same-stream}
+//@ contract (b *Buffer) Reader() (r) props(C17)
+//@   requires b != nil
+//@   ensures r != nil && r.pos == 0 && r.end == len(b.Buf) && !r.failed && r.reliable {fresh-reader}
+//@   ensures forall k in 0..len(b.Buf) :: r.in[k] == b.Buf[k] {over-the-buffer}
